@@ -1,8 +1,9 @@
 """C01 - Transpilation preserves the action of the circuit."""
 import os
 
-from translate import templates
+from translate import native, templates
 from vlib import fingerprint
+from vlib.common import load_known
 
 
 def run(ctx):
@@ -13,15 +14,30 @@ def run(ctx):
         "numpy oracle harness/oracle.py for the failing-input search; binary64 rounding not modelled",
         "hand model coq/model/Period.v of NormalizeRotationTranspiler._normalize (real mod), tied by corr_C01.py and an AST "
         "fingerprint",
-        "partial: KAK/SU(2) numeric bodies, Pauli-string decomposers, epsilon-snapping passes, Quantinuum/IonQ native "
-        "transpilers are covered by the sweep only",
+        "translate/templates.py:run_native + translate/native.py (fail-closed ast translators of the Quantinuum/IonQ native "
+        "transpilers: templates, U1qNormalize branches, CNOTRZ2RZZ window, IonQ virtual-Z rows), validated by native_C01.py; "
+        "hand model coq/model/Native.v of the CNOTRZ2RZZ sliding window and of the IonQ frame bookkeeping (loop outline "
+        "checked by the translator)",
+        "documented native gate matrices (quri_parts.quantinuum/ionq.circuit.gates docstrings) as the specification; IonQ "
+        "phases are turns (as the transpiler, the repo's tests and IonQ's API use them), MS(phi0, phi1) carries phi0 on its "
+        "first target (IonQ's convention; the docstring matrix is written with the first target as the most significant bit); "
+        "snapping tests `|theta - K| < epsilon` are idealised to theta = K (the documented epsilon)",
+        "partial: KAK/SU(2) numeric bodies (guarded by the decomposer's own output validation since fix 8e85f3f), "
+        "Pauli-string decomposers and epsilon-snapping passes are covered by the sweep only",
     ]
     ctx.translate("templates", templates.run, os.path.join(ctx.work, "gen"),
                   os.path.join(ctx.work, "templates.json"))
     ctx.translate("fusers", templates.run_fusers, os.path.join(ctx.work, "gen"), os.path.join(ctx.work, "fusers.json"))
     fingerprint.check(ctx, "packages/circuit/quri_parts/circuit/transpile/fuse.py",
                       ["NormalizeRotationTranspiler._normalize", "NormalizeRotationTranspiler.decompose"])
-    ctx.coq(["templates.v", "fusers.v"], ["C01.v"])
+    ctx.translate("native-templates", templates.run_native, os.path.join(ctx.work, "gen"),
+                  os.path.join(ctx.work, "native.json"))
+    known = load_known("C01")
+    u1q_bad = sorted(k.split(":")[-1] for k in known if k.startswith("sweep:U1qNormalizeWithRZTranspiler:"))
+    ctx.translate("native-passes", native.run, os.path.join(ctx.work, "gen"), os.path.join(ctx.work, "nativegen.json"),
+                  u1q_bad)
+    ctx.coq(["templates.v", "fusers.v", "native.v", "nativegen.v"], ["C01.v", "C01_refuted.v"], optional=("C01_refuted.v",))
     if os.path.exists(os.path.join(ctx.work, "templates.json")):
         ctx.harness("corr_C01.py", kind="corr")
     ctx.harness("sweep_C01.py")
+    ctx.harness("native_C01.py")
